@@ -341,6 +341,7 @@ impl<'a> Cx<'a> {
           ("align_of", true, _) => ("E.c.elemAlign", Kind::Nat),
           ("needs_drop", true, _) => ("E.c.needsDrop", Kind::Bool),
           ("size_of", _, true) => ("hdrSize", Kind::Nat),
+          ("size_of", _, _) if generic_arg_is(&p, "usize") => ("wordSize", Kind::Nat),
           ("align_of", _, true) => ("hdrAlign", Kind::Nat),
           _ => return Err(format!("`{}`", toks(c))),
         };
@@ -389,6 +390,23 @@ impl<'a> Cx<'a> {
         return Ok((pre, "()".into(), Kind::Unit));
       }
       "write" if nargs == 2 && full.ends_with("ptr::write") && !self.pure => {
+        // `ptr::write(<block>.add(<offset>).cast::<usize>(), <value>)`: the word in front of the elements
+        if let Expr::MethodCall(castm) = strip(&c.args[0]) {
+          if castm.method == "cast" && toks(castm).replace(' ', "").ends_with(".cast::<usize>()") {
+            if let Expr::MethodCall(addm) = strip(&castm.receiver) {
+              if addm.method == "add" && addm.args.len() == 1 {
+                let (tp, t, tk) = self.expr(&addm.receiver)?;
+                if tk == Kind::Tok {
+                  pre.extend(tp);
+                  let off = self.nat(&addm.args[0], &mut pre)?;
+                  let val = self.nat(&c.args[1], &mut pre)?;
+                  pre.push(format!("GM.writeMirror {} {} {}", t, off, val));
+                  return Ok((pre, "()".into(), Kind::Unit));
+                }
+              }
+            }
+          }
+        }
         let (tp, t, tk) = self.expr(&c.args[0])?;
         let (hp, h, hk) = self.expr(&c.args[1])?;
         if tk == Kind::Tok && hk == Kind::Header {
